@@ -356,6 +356,31 @@ impl Prop for C02 {
             }
           }
         }
+        // cold memo, months of a year visited in DEscending order (regular months first, then skipping around the leap
+        // month): every lunar date of those months must still be accepted/refused and round-trip as before
+        let step = env.tier.pick(40, 4);
+        let (ylo, yhi) = shard_range(9990, shard, nshards);
+        for y in (ylo as i64 + 5..yhi as i64 + 5).filter(|y| y % step == (env.seed % step as u64) as i64) {
+          let lp = l.leap[y as usize] as i64;
+          tyme4rs::tyme::lunar::verif_reset_lunar_month_cache();
+          let mut seq: Vec<i64> = (1..=12).rev().collect();
+          if lp > 0 {
+            seq.push(-lp);
+            seq.push(lp - 1 + (lp == 1) as i64 * 2);
+            seq.push(lp + 1 - (lp == 12) as i64 * 2);
+            seq.push(lp);
+          }
+          for m in seq {
+            if l.pos(y, m).is_none() {
+              continue;
+            }
+            for d in [1i64, 15, 29, 30, 31, 32, 45, 59, 60] {
+              out.class("cold_descending_month_cases");
+              run_case(env, out, "l2s", &Case::ints(&[y, m, d]), &ev);
+            }
+          }
+        }
+        tyme4rs::tyme::lunar::verif_reset_lunar_month_cache();
         let total: u32 = env.tier.pick(48_000, 1_600_000);
         prop_run(env, out, "order", total / nshards as u32, shard as u64, order_strategy(), &ev);
         out.set_exhaustive("order", false);
